@@ -63,7 +63,7 @@ Definition wigm_defeat (s : est) : est :=
   match low_candidates A s with
   | None => set_crash s ValueError
   | Some (lv, lows) =>
-    if eqv A lv V0 && cf_batch_zero cfg then
+    if eqv A lv V0 && cf_batch_zero cfg && (seats_left A cfg s <=? nlen (hopefuls A s) - nlen lows) then
       let s1 := fold_left (fun s c => defeat A cfg (cid c) "Defeat batch(zero)" s) lows s in
       fold_left (fun s c => transfer_defeated_one A cfg (cid c) s) lows s1
     else
@@ -319,7 +319,9 @@ Definition mpls_find_defeats (s : est) : est :=
   | Ok uv =>
     (* round 1..: undeclaredVotes is the int 0 unless round 2; surplus + 0 is the same value *)
     let losers := find_certain_losers (if round s =? 2 then add A (surplus s) uv else surplus s) s in
-    set_batch s (map (@cid A) ((und ++ losers)%list))
+    (* each candidate once: certain losers already listed as undeclared write-ins are skipped *)
+    let losers' := filter (fun c => negb (existsb (fun u => cid u =? cid c) und)) losers in
+    set_batch s (map (@cid A) ((und ++ losers')%list))
   end.
 
 Definition mpls_defeat_batch (s : est) : est :=
